@@ -528,4 +528,31 @@ theorem taskFinish_co {κ : Type} (t : Task) (x : κ × Out × Futs) : (taskFini
     | tok n => rfl
     | fut f => simp only [taskFinish]; split <;> rfl
 
+theorem Co.resume_susp_fin (b : VBody) (co : Co b.σ) (s : b.σ) (hs : co.st = .susp s) (r : Resume) (F : Futs)
+    (hfin : ∀ y, (b.resume s r F).2 ≠ .yield y) :
+    (Co.resume b co r F).1.st = .done ∧ ∀ y, (Co.resume b co r F).2.1 ≠ .yield y := by
+  unfold Co.resume
+  rw [hs]
+  simp only [Co.after]
+  split
+  · rename_i y hy; exact absurd hy (hfin y)
+  · exact ⟨rfl, by intro y h; cases h⟩
+  · exact ⟨rfl, by intro y h; cases h⟩
+  · exact ⟨rfl, by intro y h; cases h⟩
+
+theorem taskFinish_done {κ : Type} (t : Task) (x : κ × Out × Futs) (h : ∀ y, x.2.1 ≠ .yield y) :
+    (taskFinish t x).co = x.1 ∧ (taskFinish t x).task.outcome.isSome = true := by
+  obtain ⟨a, o, F⟩ := x
+  cases o with
+  | ret v => exact ⟨rfl, rfl⟩
+  | raise e => exact ⟨rfl, rfl⟩
+  | yield y => exact absurd rfl (h y)
+
+theorem kstep_run_done {κ : Type} (c : CStep κ) (s : K κ) (h : s.task.outcome.isSome = true) :
+    kstep c s .run = s := by
+  simp only [kstep]
+  cases ho : s.task.outcome with
+  | none => rw [ho] at h; cases h
+  | some o => rfl
+
 end Asynkit.Eager
